@@ -1042,6 +1042,29 @@ fn c13_poseidon_and_sponge() {
     }
     // absorbing the same elements in any chunking yields the same challenges
     let msg: Vec<F> = (0..37).map(|i| F::from_canonical_u64(i * i + 3)).collect();
+    // squeezing is chunking-independent as well: any split of a run of challenge requests (bulk, single, extension, hash) yields the same stream as
+    // drawing the challenges one by one
+    for plen in [0usize, 1, 7, 8, 9, 13] {
+        let pre: Vec<F> = (0..plen).map(|i| F::from_canonical_u64(500 + 3 * i as u64)).collect();
+        for chunks in [vec![3usize, 3, 6], vec![2, 2, 4, 2], vec![1, 2], vec![7, 2], vec![8, 1], vec![1, 8], vec![5, 5, 5], vec![6, 3, 8, 2], vec![4, 4, 4, 4, 4], vec![1, 1, 7, 1], vec![9, 2, 9]] {
+            let total: usize = chunks.iter().sum();
+            let mut one = Challenger::<F, PoseidonHash>::new(); one.observe_elements(&pre);
+            let reference: Vec<F> = (0..total).map(|_| one.get_challenge()).collect();
+            for style in 0..3 {
+                let mut c = Challenger::<F, PoseidonHash>::new(); c.observe_elements(&pre);
+                let mut got: Vec<F> = Vec::new();
+                for &k in &chunks {
+                    match (style, k) {
+                        (1, 2) => { let e = c.get_extension_challenge::<D>(); let a: [F; D] = crate::field::extension::FieldExtension::<D>::to_basefield_array(&e); got.extend(a); }
+                        (2, 4) => { let h = c.get_hash(); got.extend(h.elements); }
+                        _ => got.extend(c.get_n_challenges(k)),
+                    }
+                }
+                cases += 1;
+                if got != reference { bad.push(format!("challenger: after {plen} observed elements, squeezing in chunks {chunks:?} (style {style}) differs from squeezing one by one")); }
+            }
+        }
+    }
     let mut c0 = Challenger::<F, PoseidonHash>::new(); c0.observe_elements(&msg); let r0 = c0.get_n_challenges(9);
     for split in 0..msg.len() { let mut c = Challenger::<F, PoseidonHash>::new(); c.observe_elements(&msg[..split]); c.observe_elements(&msg[split..]); cases += 1; if c.get_n_challenges(9) != r0 { bad.push(format!("challenger: split at {split} changes the challenges")); } }
     { let mut c = Challenger::<F, PoseidonHash>::new(); for &m in &msg { c.observe_element(m); } cases += 1; if c.get_n_challenges(9) != r0 { bad.push("challenger: element-wise absorption changes the challenges".into()); } }
@@ -1989,6 +2012,29 @@ fn c13_linear_layers() {
         states.push(core::array::from_fn(|j| F::from_noncanonical_u64(if j == (k as usize) % 12 { lo + (span - 1) } else { 0 })));
     }
     for _ in 0..200 { states.push(core::array::from_fn(|_| F::from_noncanonical_u64(rnd()))); }
+    // steered states: the reduced row-0 product AND the reduced diagonal term 8*s0 are both non-canonical words just below 2^64, so that adding them wraps
+    // twice (the corner of a diagonal term added without a full reduction).  Row 0 of the circulant is sum_i circ[i]*s_i; with s = [s0, s1, 0, ..] the
+    // 96-bit product is reduced to lo + hi*(2^32 - 1); s1 is solved so that this word lands at a chosen distance below 2^64.
+    {
+        let eps: u128 = 0xFFFF_FFFF;
+        let c0 = <F as Poseidon>::MDS_MATRIX_CIRC[0] as u128; let c1 = <F as Poseidon>::MDS_MATRIX_CIRC[1] as u128;
+        for s0 in [(1u64 << 61) - 1, (1u64 << 61) - 2, (1u64 << 61) - 1000, 0x1FFF_FFFF_E000_0001u64] {
+            for below in [1u128, 9, 100, 1 << 16, 1 << 31, (1 << 32) - 20] {
+                let base = c0 * s0 as u128;
+                'search: for dt in 0..c1 { for h in 0..64u128 {
+                    let word = (1u128 << 64) - below - dt;            // target value of lo + hi*eps
+                    if word < h * eps { continue; }
+                    let p0 = (h << 64) + (word - h * eps);
+                    if p0 < base || (p0 - base) % c1 != 0 { continue; }
+                    let s1 = (p0 - base) / c1;
+                    if s1 >= 1u128 << 64 { continue; }
+                    let mut st = [F::ZERO; 12]; st[0] = F::from_noncanonical_u64(s0); st[1] = F::from_noncanonical_u64(s1 as u64);
+                    states.push(st);
+                    break 'search;
+                } }
+            }
+        }
+    }
     for st in &states {
         cases += 1;
         let got = catch_unwind(AssertUnwindSafe(|| F::mds_layer(st)));
@@ -2122,6 +2168,73 @@ fn c05_fri_structured_openings() {
         }
     }
     finish("c05_fri_structured_openings", cases, bad);
+}
+
+// C05 (batched FRI): an arity schedule that SKIPS the evaluation-domain size of one instance (2^10 -> 2^9 -> 2^7: the 2^8 domain of a degree-2^7 instance
+// never occurs).  A forger commits to f1 = c X^2 + b, claims f1(zeta) = b + c g zeta (false) and hands the prover's own commit phase the constant c g as
+// "quotient" of that instance; if the verifier folded the instance into a layer of the wrong size, (f1(x) - claim) / (x' - zeta) would equal c g at every
+// query.  No false opening may be accepted (a panic of the verifier counts as a refusal here, C18 does not cover this internal API).
+// Scenario contributed by a seeding sub-agent (seeded/C05_cand7), kept as a regression case for the class "instance folded in at the wrong layer".
+#[test]
+fn c05_batch_skipped_layer() {
+    use crate::batch_fri::oracle::BatchFriOracle;
+    use crate::batch_fri::prover::batch_fri_proof;
+    use crate::batch_fri::verifier::verify_batch_fri_proof;
+    use crate::field::polynomial::{PolynomialCoeffs, PolynomialValues};
+    use crate::field::types::Sample;
+    use crate::fri::structure::{FriBatchInfo, FriInstanceInfo, FriOpeningBatch, FriOpenings, FriOracleInfo, FriPolynomialInfo};
+    use crate::fri::{FriConfig, FriParams};
+    use crate::iop::challenger::Challenger;
+    use crate::util::timing::TimingTree;
+    let mut bad = Vec::new();
+    let mut cases = 0usize;
+    for trial in 0..3u64 {
+        let (k0, k1) = (9usize, 7usize);
+        let arities = vec![1usize, 2, 1];
+        let fri_params = FriParams { config: FriConfig { rate_bits: 1, cap_height: 2, proof_of_work_bits: 0, reduction_strategy: FriReductionStrategy::Fixed(arities.clone()), num_query_rounds: 12 }, hiding: false, degree_bits: k0, reduction_arity_bits: arities };
+        let r = catch_unwind(AssertUnwindSafe(|| -> Option<bool> {
+            let mut timing = TimingTree::default();
+            let f0 = PolynomialCoeffs::new(F::rand_vec(1 << k0));
+            let (b, c) = (F::rand(), F::rand() + F::from_canonical_u64(trial + 1));
+            if c.is_zero() { return None; }
+            let mut f1c = vec![F::ZERO; 1 << k1]; f1c[0] = b; f1c[2] = c;
+            let f1 = PolynomialCoeffs::new(f1c);
+            let oracle: BatchFriOracle<F, PC, D> = BatchFriOracle::from_coeffs(vec![f0.clone(), f1.clone()], 1, false, 2, &mut timing, &[None; 2]);
+            let mut challenger = Challenger::<F, PoseidonHash>::new();
+            challenger.observe_cap(&oracle.batch_merkle_tree.cap);
+            let zeta = challenger.get_extension_challenge::<D>();
+            let g = F::coset_shift();
+            let y0 = f0.to_extension::<D>().eval(zeta);
+            let y1 = f1.to_extension::<D>().eval(zeta);
+            let rr: FE = (c * g).into();
+            let bb: FE = b.into();
+            let claimed = bb + rr * zeta;
+            if claimed == y1 { return None; }
+            challenger.observe_extension_element::<D>(&y0);
+            challenger.observe_extension_element::<D>(&claimed);
+            let mut vch = challenger.clone();
+            let _alpha = challenger.get_extension_challenge::<D>();
+            let mut quotient = f0.to_extension::<D>().divide_by_linear(zeta);
+            quotient.coeffs.push(FE::ZERO);
+            let lde0 = quotient.lde(1);
+            let vals0 = lde0.coset_fft(F::coset_shift().into());
+            let forged1 = PolynomialValues::new(vec![rr; 1 << k1]);
+            let proof = batch_fri_proof::<F, PC, D>(&[&oracle.batch_merkle_tree], lde0, &[vals0, forged1], &mut challenger, &fri_params, &mut timing);
+            let inst = |i: usize| FriInstanceInfo::<F, D> { oracles: vec![FriOracleInfo { num_polys: 1, blinding: false }], batches: vec![FriBatchInfo { point: zeta, polynomials: vec![FriPolynomialInfo { oracle_index: 0, polynomial_index: i }] }] };
+            let instances = vec![inst(0), inst(1)];
+            let openings = vec![FriOpenings { batches: vec![FriOpeningBatch { values: vec![y0] }] }, FriOpenings { batches: vec![FriOpeningBatch { values: vec![claimed] }] }];
+            let ch = vch.fri_challenges::<PC, D>(&proof.commit_phase_merkle_caps, &proof.final_poly, proof.pow_witness, k0, &fri_params.config, None, None);
+            let cap = oracle.batch_merkle_tree.cap.clone();
+            let out = catch_unwind(AssertUnwindSafe(|| verify_batch_fri_proof::<F, PC, D>(&[k0, k1], &instances, &openings, &ch, &[cap], &proof, &fri_params)));
+            Some(matches!(out, Ok(Ok(()))))
+        }));
+        match r {
+            Ok(Some(accepted)) => { cases += 1; if accepted { bad.push(format!("batch FRI, degrees 2^9 and 2^7 under arities [1, 2, 1] (the 2^8 domain is skipped): FALSE opening of the second polynomial ACCEPTED (trial {trial})")); } }
+            Ok(None) => {}
+            Err(_) => { cases += 1; }   // the forger's own commit phase broke down: nothing was emitted
+        }
+    }
+    finish("c05_batch_skipped_layer", cases.max(1), bad);
 }
 
 // C05 (batched FRI): several oracles, several degrees; every component of the opening proof is checked
